@@ -40,13 +40,21 @@ def plan(tier):
 
 def spec_from_seed(run_seed, tier):
     rnd = random.Random(run_seed)
-    mode = "outcome" if rnd.random() < (0.02 if tier == "quick" else 0.08) else "interface"
+    r_mode = rnd.random()
+    mode = "outcome" if r_mode < (0.02 if tier == "quick" else 0.08) else "interface"
+    fault = None
+    if 0.5 < r_mode < (0.56 if tier == "quick" else 0.62):
+        # an ensemble in which one member's generation fails early on (the caller's generator raises inside it): whether the
+        # library ends that pass or carries on, the composition of what is generated afterwards is the declared one
+        mode = "outcome"
+        fault = {"kind": rnd.choice(["rng_raise", "rng_raise", "rng_interrupt"]), "gen": 0, "after_yields": rnd.choice([1, 2, 3, 5]),
+                 "offset": rnd.randrange(0, 5), "respawn": True}
     for _ in range(30):
         text, tags, sysw = archetypes.gen_system(rnd, {"safe_dist": True, "max_units": 8 if mode == "outcome" else 40},
                                                  deterministic_mass=True, min_components=2)
         if archetypes.token_budget_ok(text):
             break
-    return {"kind": "composition", "prop": "C14", "text": text, "tags": sorted(tags), "system_molweight": sysw, "mode": mode,
+    return {"kind": "composition", "prop": "C14", "text": text, "tags": sorted(tags), "system_molweight": sysw, "mode": mode, "fault": fault,
             "members": 1500 if mode == "outcome" else rnd.choice([20, 30, 50]),
             "sched": {"seed": rnd.randrange(1 << 48), "choice_policy": "faithful", "draw_policy": "natural", "script": None, "budget": 2000000}}
 
@@ -108,8 +116,8 @@ def execute(spec):
     def one(seed_shift):
         sk = dict(spec["sched"])
         sk["seed"] = sk["seed"] + seed_shift
-        return sysrun.run_system(scaled_text, 1, sk, n_generators=1, faults=None, props=(), system_molweight=scaled_sysw, max_steps=10 ** 7,
-                                 wall=600, check_generate=False)
+        return sysrun.run_system(scaled_text, 1, sk, n_generators=1, faults=[dict(spec["fault"])] if spec.get("fault") else None, props=(),
+                                 system_molweight=scaled_sysw, max_steps=10 ** 7, wall=600, check_generate=False)
 
     r = one(0)
     if r.get("harness_error"):
@@ -117,6 +125,9 @@ def execute(spec):
     picks = r.get("picks", [])
     members = r.get("members", [])
     stats = {"runs": 1, "members": len(members), "mode:" + spec["mode"]: 1, "events": r.get("n_events", 0)}
+    for k_, v_ in (r.get("stats") or {}).items():
+        if k_.startswith("fault:"):
+            stats[k_] = v_
     n = len(fr)
     mass_ratio = max(m) / max(min(m), 1e-9)
     stats["mass_ratio_ge_10"] = 1 if mass_ratio >= 10 else 0
